@@ -31,6 +31,19 @@ def check_case(ctx, cs):
     bad = {k: (res[k], want[k]) for k in want if bool(res[k]) != want[k]}
     if bad:
         ctx.violate(site, tg, small, {"got_vs_expected": bad})
+    if pk == "same":
+        # a deep copy equals its source whatever the (user-chosen) object id, name or sampling is
+        for oid in (1, 2, 3, 4):
+            try:
+                X = build(a, id=oid)
+                X.sample_size = 3
+                Y = copy.deepcopy(X)
+                if not (X == Y and Y == X) or (X != Y):
+                    ctx.violate("abstract.GeomdlBase.__deepcopy__", tg + ["id=%d" % oid], small, {"deepcopy_equals_source": False})
+                    break
+            except Exception as e:
+                ctx.violate("abstract.GeomdlBase.__deepcopy__", tg + ["raises", "id=%d" % oid], small, {"exception": repr(e)[:200]})
+                break
 
 
 THEOREMS = ["T_Tracks: the definition of equality separates every single-component perturbation and every kind/rationality twin",
